@@ -647,6 +647,29 @@ def zoneFailureRecordable (zoneKnown bestEffort ctxErr : Bool) (cause : Option E
      | some .canceled | some .deadline | some .workLimit | some .attemptLimit | some .maxRecursion => false
      | _ => true)
 
+/-! ### `Resolver.Resolve` / `subQuery`: the latched rejection replaces any outcome -/
+
+/-- what `resolve()` handed back. -/
+inductive Inner | answer | failure
+deriving Repr, DecidableEq
+
+inductive Outcome | answer | failure | policy (k : Kind) (lim : Nat)
+deriving Repr, DecidableEq
+
+/-- after `resolve()` returned, `Resolve` re-reads the tree's latch: a required debit refused
+anywhere in the tree — also in a branch that swallowed its error (the per-host lookups of the
+nameserver-address refresh, a losing parallel branch) — turns the outcome into the policy error. -/
+def resolveOutcome (p : Policy) (sh : Shared) (inner : Inner) : Outcome :=
+  match enforcementError p sh with
+  | .limit k l => .policy k l
+  | .ok => match inner with
+    | .answer => .answer
+    | .failure => .failure
+
+/-- `ResponseMeta.detachedCopy`: the meta a wire-born request continues on keeps the pipeline's
+work policy whether or not request-tree state exists yet. -/
+def detachedPolicy (p : Policy) (_hasLedgerHost : Bool) : Policy := p
+
 /-! ### forwarder mode: every hop of an alias chain is an upstream query of the same tree -/
 
 def ApiOp.isOutboundDebit : ApiOp → Bool
